@@ -527,7 +527,17 @@ pub fn gen_val(rng: &mut Rng, shape: &Shape, budget: &mut isize) -> Val {
                 }
             })
         }
-        Str | DisplayStr => Val::Str(gen_string(rng, budget)),
+        Str => Val::Str(gen_string(rng, budget)),
+        DisplayStr => {
+            let mut t = gen_string(rng, budget);
+            // sometimes text that a `Display` impl would produce by padding
+            if rng.chance(1, 4) && *budget > 0 {
+                let k = rng.range(1, 6).min(*budget as usize);
+                t.extend(std::iter::repeat(' ').take(k));
+                *budget -= k as isize;
+            }
+            Val::Str(t)
+        }
         Bytes => Val::Bytes(gen_bytes(rng, budget)),
         Option(s) => {
             *budget -= 1;
@@ -749,14 +759,60 @@ pub struct SV<'a>(pub &'a Shape, pub &'a Val);
 struct DisplayAs<'a>(&'a str);
 impl fmt::Display for DisplayAs<'_> {
     fn fmt(&self, f: &mut fmt::Formatter<'_>) -> fmt::Result {
-        // write in two pieces when possible, as real Display impls do
+        // Real `Display` impls drive `fmt::Write` in different ways; which one is used here is a
+        // function of the text (so that a value always serialises the same way): two pieces,
+        // one `write_char` per character, left-alignment padding (the formatter emits the fill
+        // with `write_char`), nested `write!`, many one-character `write_str` pieces.
+        use fmt::Write;
         let s = self.0;
-        let mut cut = s.len() / 2;
-        while !s.is_char_boundary(cut) {
-            cut -= 1;
+        let mode = (s.len() + s.as_bytes().first().copied().unwrap_or(0) as usize) % 5;
+        match mode {
+            1 => {
+                for c in s.chars() {
+                    f.write_char(c)?;
+                }
+                Ok(())
+            }
+            2 if s.ends_with(' ') => {
+                let head = s.trim_end_matches(' ');
+                let width = s.chars().count();
+                write!(f, "{:<width$}", head, width = width)
+            }
+            3 => {
+                let mut cut = s.len() / 3;
+                while !s.is_char_boundary(cut) {
+                    cut -= 1;
+                }
+                write!(f, "{}{}", &s[..cut], Inner(&s[cut..]))
+            }
+            4 => {
+                let mut b = [0u8; 4];
+                for c in s.chars() {
+                    f.write_str(c.encode_utf8(&mut b))?;
+                }
+                Ok(())
+            }
+            _ => {
+                let mut cut = s.len() / 2;
+                while !s.is_char_boundary(cut) {
+                    cut -= 1;
+                }
+                f.write_str(&s[..cut])?;
+                f.write_str(&s[cut..])
+            }
         }
-        f.write_str(&s[..cut])?;
-        f.write_str(&s[cut..])
+    }
+}
+
+struct Inner<'a>(&'a str);
+impl fmt::Display for Inner<'_> {
+    fn fmt(&self, f: &mut fmt::Formatter<'_>) -> fmt::Result {
+        use fmt::Write;
+        let mut it = self.0.chars();
+        if let Some(c) = it.next() {
+            f.write_char(c)?;
+        }
+        f.write_str(it.as_str())
     }
 }
 
